@@ -2,17 +2,18 @@
   Driver glue shared by C13 / C14 / C15: a whole operation history travels in one request
   line, the answer lists what the model predicts to be observable after every step.
 
-  request  (Cxx run (cfg asc|desc <thresh>) (vals (<key> <metakey> <hexbytes> <ty>)…) (ops <op>…))
+  request  (Cxx run (cfg asc|desc <thresh> <seekstride>) (vals (<key> <metakey> <hexbytes> <ty> <keybytes>)…) (ops <op>…))
     key  : n | i<int> | s<hex>
     op   : (load b (toks…) (parts (toks…)…)) | (delete b (ids…)) | (delwhere b (deltoks…) (parts …))
          | (compact b (ids…) 0|1 (parts …)) | (addvec b (ids…)) | (delvec b (ids…))
          | (vacuum c) | (branch name c) | (merge child parent) | (revert b c)
-  answer   ((step <res> (br (<name> <tip> <status> (objs (<id> <min> <max> <count> <vec> <toks…>)…) (scan <toks…>))…)
+  answer   ((step <res> (br (<name> <tip> <status> (objs (<id> <min> <max> <count> <vec> (seek (<min> <max> <off> <cnt>)…) <toks…>)…) (scan <toks…>))…)
                         (cm (<c> <status> (scan <toks…>))…)) …)
   Not used in any theorem.
 -/
 import Zed.Model.Sexp
 import Zed.Model.LakeOps
+import Zed.Model.LakeSeek
 namespace Zed.Lake.Drv
 open Zed Zed.Lake
 
@@ -42,6 +43,7 @@ structure Val where
   mkey : Key
   bytes : List UInt8
   ty : Nat
+  kb : Nat := 0   -- len(key.Bytes()): what data.Writer adds to the seek-index trigger
   deriving DecidableEq, Repr, Inhabited
 
 /-- `ImportComparator`: pool key (nulls max; operands swapped for desc), then the value bytes
@@ -77,13 +79,14 @@ def nats : List Sexp → Option (List Nat)
 
 def parseVals : List Sexp → Nat → Option (List Val)
   | [], _ => some []
-  | .list [.atom k, .atom mk, .atom h, .atom t] :: r, i => do
+  | .list [.atom k, .atom mk, .atom h, .atom t, .atom kb] :: r, i => do
     let key ← keyOf k
     let mkey ← keyOf mk
     let bytes ← Sexp.bytesOfHex h
     let ty ← t.toNat?
+    let kb ← kb.toNat?
     let rest ← parseVals r (i + 1)
-    pure ({ tok := i, key := key, mkey := mkey, bytes := bytes, ty := ty } :: rest)
+    pure ({ tok := i, key := key, mkey := mkey, bytes := bytes, ty := ty, kb := kb } :: rest)
   | _, _ => none
 
 def toks (tbl : Array Val) (xs : List Sexp) : Option (List Val) := do
@@ -121,9 +124,16 @@ def statusOf {α} : Except Err α → String
   | .ok _ => "ok"
   | .error e => e.toStr
 
-def objOut (s : State Key Val) (snap : Snap Key) (o : Obj Key) : Sexp :=
+def seekOut (cfg : Cfg Key Val) (stride : Nat) (p : List Val) : Sexp :=
+  .list (.atom "seek" :: (seekEntries cfg stride (·.kb) p).map fun e =>
+    .list [.atom (keyStr e.min), .atom (keyStr e.max), .atom (toString e.valOff), .atom (toString e.valCnt)])
+
+def objOut (cfg : Cfg Key Val) (stride : Nat) (s : State Key Val) (snap : Snap Key) (o : Obj Key) : Sexp :=
   .list ([.atom (toString o.id), .atom (keyStr o.min), .atom (keyStr o.max), .atom (toString o.count),
-          .atom (if snap.hasVec o.id then "1" else "0")] ++
+          .atom (if snap.hasVec o.id then "1" else "0"),
+          (match fileOf s.files o.id with
+           | some p => seekOut cfg stride p
+           | none => .list [.atom "seek"])] ++
          (match fileOf s.files o.id with
           | some p => tokList p
           | none => [.atom "gone"]))
@@ -138,40 +148,40 @@ def scanOut (r : Except Err (List Val)) : Sexp :=
 def resolveTip (s : State Key Val) (t : Nat) : Nat :=
   if t = 0 then (s.tip 0).getD 0 else t
 
-def branchOut (cfg : Cfg Key Val) (s : State Key Val) (b : Nat × Nat) : Sexp :=
+def branchOut (cfg : Cfg Key Val) (stride : Nat) (s : State Key Val) (b : Nat × Nat) : Sexp :=
   let rt := resolveTip s b.2
   match snapAt s.commits rt with
   | .error e => .list [.atom (toString b.1), .atom (toString b.2), .atom e.toStr, .list [.atom "objs"], .list [.atom "scan"]]
   | .ok snap =>
     let q := State.query cfg s rt
     .list [.atom (toString b.1), .atom (toString b.2), .atom (statusOf q),
-           .list (.atom "objs" :: (lister cfg snap.objs).map (objOut s snap)), scanOut q]
+           .list (.atom "objs" :: (lister cfg snap.objs).map (objOut cfg stride s snap)), scanOut q]
 
 def commitOut (cfg : Cfg Key Val) (s : State Key Val) (c : Nat) : Sexp :=
   let q := State.query cfg s c
   .list [.atom (toString c), .atom (statusOf q), scanOut q]
 
-def observe (cfg : Cfg Key Val) (s : State Key Val) (res : String) : Sexp :=
+def observe (cfg : Cfg Key Val) (stride : Nat) (s : State Key Val) (res : String) : Sexp :=
   .list [.atom "step", .atom res,
-         .list (.atom "br" :: s.branches.map (branchOut cfg s)),
+         .list (.atom "br" :: s.branches.map (branchOut cfg stride s)),
          .list (.atom "cm" :: (List.range s.commits.length).map (fun i => commitOut cfg s (i + 1)))]
 
-def runOps (cfg : Cfg Key Val) : State Key Val → List (Op Val) → List Sexp
+def runOps (cfg : Cfg Key Val) (stride : Nat) : State Key Val → List (Op Val) → List Sexp
   | _, [] => []
   | s, op :: ops =>
     match apply cfg s op with
-    | .ok s' => observe cfg s' "ok" :: runOps cfg s' ops
-    | .error e => observe cfg s e.toStr :: runOps cfg s ops
+    | .ok s' => observe cfg stride s' "ok" :: runOps cfg stride s' ops
+    | .error e => observe cfg stride s e.toStr :: runOps cfg stride s ops
 
 def handle : List Sexp → String
-  | [.atom "run", .list [.atom "cfg", .atom dir, .atom th], .list (.atom "vals" :: vs), .list (.atom "ops" :: ops)] =>
-    match (if dir == "asc" then some false else if dir == "desc" then some true else none), th.toNat?, parseVals vs 0 with
-    | some desc, some thresh, some vals =>
+  | [.atom "run", .list [.atom "cfg", .atom dir, .atom th, .atom st], .list (.atom "vals" :: vs), .list (.atom "ops" :: ops)] =>
+    match (if dir == "asc" then some false else if dir == "desc" then some true else none), th.toNat?, st.toNat?, parseVals vs 0 with
+    | some desc, some thresh, some stride, some vals =>
       let tbl := vals.toArray
       match ops.mapM (parseOp tbl) with
       | none => "bad-op"
-      | some ops => toString (Sexp.list (runOps (mkCfg desc thresh) {} ops))
-    | _, _, _ => "bad-op"
+      | some ops => toString (Sexp.list (runOps (mkCfg desc thresh) stride {} ops))
+    | _, _, _, _ => "bad-op"
   | _ => "bad-op"
 
 end Zed.Lake.Drv
